@@ -160,6 +160,14 @@ impl Prop for C11 {
             }
             replicas.push(Replica { role: "composed-twin".into(), entropy: e, steps: st, warmup: vec![] });
         }
+        if !sweep {
+            for r in replicas.iter_mut().skip(1) {
+                if rng.pct(20) {
+                    super::add_warmup(&mut rng, r, &docs);
+                }
+                super::decorate_role(&mut rng, r);
+            }
+        }
         let derive = rng.pick(&["Serialize, Deserialize", ""]).to_string();
         Scenario::Session(Session { docs, alts, replicas, opts: all_opts(&derive) })
     }
@@ -240,7 +248,7 @@ impl Prop for C11 {
                 for (oi, (a, b)) in base.renders.iter().zip(st.renders.iter()).enumerate() {
                     if a != b {
                         violation.get_or_insert(Violation {
-                            class: format!("render_differs:{}", s.replicas[ri].role.split('@').next().unwrap_or("")),
+                            class: format!("render_differs:{}", s.replicas[ri].role.split('@').next().unwrap_or("").replace("logging-", "").replace("env-", "").replace("migrating-", "")),
                             detail: format!(
                                 "after step {si}, options {}: baseline renders\n{a}\nreplica {} renders\n{b}",
                                 s.opts[oi].to_j().to_string(),
@@ -255,6 +263,10 @@ impl Prop for C11 {
                 }
             }
         }
+        if s.replicas.iter().any(|r| !r.warmup.is_empty()) {
+            bump(ctr, "fault.veteran_thread_replica");
+        }
+        super::count_decorations(s, ctr);
         if s.replicas.len() > 10 {
             bump(ctr, "sweep.two_chunk_split_documents");
             add(ctr, "sweep.two_chunk_splits", s.replicas.len() as u64 - 2);
